@@ -1,6 +1,6 @@
 """C03 — the same model and seeds give the same run, every time and in every process.
 
-A zoo of 35 small models (simkit/c03_zoo.py) covers every component family of the property's quantifier.  One scenario =
+A zoo of 38 small models (simkit/c03_zoo.py) covers every component family of the property's quantifier.  One scenario =
 {model, params, user seed, other models that run earlier in the same interpreter, perturbation plan}.  `run(sc)` executes
 the model under the perturbations and compares one canonical digest = delivery log (time_ns, event_type, target name)
 recorded through the engine's own `sim.control.on_event` seam + the model's list of public statistics:
@@ -55,7 +55,7 @@ SELFTEST_RUNS = 3
 SHRINK_BUDGET_S = {"quick": 30.0, "thorough": 60.0}
 SHRINK_SKIP = ("params", "model")
 RULE = (
-    "quick: each case = a cohort of 8 different zoo models out of 35 (all judged; 40 cohorts = 320 model/seed pairs, every model >= 3 "
+    "quick: each case = a cohort of 8 different zoo models out of 38 (all judged; 40 cohorts = 320 model/seed pairs, every model >= 3 "
     "seeds), two interpreters per cohort + sampled literal subprocesses; thorough: each case = one of 34 zoo models (sources->servers, all queue policies incl. RED/CoDel/Balking, lossy/jittered Network, "
     "Raft, Paxos, Multi-/Flexible-Paxos, leader-election strategies, SWIM, LSM+WAL, BTree, CachedStore x 10 eviction "
     "configurations, SoftTTL, MultiTier, sharded/replicated store, primary-backup, chain, multi-leader, CRDTStore gossip, "
@@ -85,7 +85,7 @@ ASSUMPTIONS = [
     "an exception escaping sim.run() from repo code is part of the behaviour being compared (same exception everywhere = "
     "deterministic), not a C03 violation by itself",
 ]
-EXPECTED_PROBES = ["fault.after_others", "fault.after_sibling", "probe.boundary_seed_everywhere", "fault.wall_offset", "fault.wall_fast", "fault.wall_frozen",
+EXPECTED_PROBES = ["fault.after_others", "fault.after_sibling", "fault.earlier_simulation_died", "probe.boundary_seed_everywhere", "fault.wall_offset", "fault.wall_fast", "fault.wall_frozen",
                    "fault.hashseed_4242", "fault.fresh_spawn", "probe.event_counter_dirty",
                    "probe.module_random_drawn", "probe.numpy_random_drawn", "probe.uuid4_called_by_model",
                    "probe.wall_clock_read_by_model", "obs.random_seed_only_runs"]
@@ -101,7 +101,9 @@ ZOO_PROBES = (
     "raft_second_election red_probabilistic_drop replicated_quorum_write rpc_retry softttl_stale_hit_refresh swim_indirect_probe "
     "swim_suspected_or_dead topic_replay topic_unsubscribe ttl_server_expired_entry_miss writeback_policy_flush"
 ).split()
-EXPECTED_PROBES += [f"probe.zoo.{n}" for n in ZOO_PROBES] + ["probe.zoo.random_partition_dropped_messages", "probe.spec_bundle_reused"]
+EXPECTED_PROBES += [f"probe.zoo.{n}" for n in ZOO_PROBES] + ["probe.zoo.cache_invalidated_then_evicted_again", "probe.zoo.seeded_policy_cleared_mid_run", "probe.zoo.sketch_cleared_mid_run",
+     "probe.zoo.prepared_events_tied_with_runtime_events", "probe.zoo.parallel_cross_partition_loss",
+     "probe.zoo.parallel_several_senders_per_window", "probe.zoo.random_partition_dropped_messages", "probe.spec_bundle_reused"]
 
 HASHSEEDS = (0, 1, 4242)
 WALL_MODES = ("offset", "fast", "frozen")
@@ -167,6 +169,8 @@ def gen(rng, tier):
             "hs": [4242],
             "fresh": rng.random() < 0.1,
             "obs_numpy": rng.random() < 0.3,
+            "crash": rng.choice(CRASH_KINDS + (None,)),
+            "crash_first_in_b": rng.random() < 0.5,
         }
         return sc
     sc = _gen_job(rng)
@@ -182,6 +186,7 @@ def gen(rng, tier):
         "hs": list(HASHSEEDS[1:]) if rng.random() < 0.3 else [HASHSEEDS[1:][rng.randrange(2)]],
         "fresh": rng.random() < 0.02,
         "obs_numpy": rng.random() < 0.25,
+        "crash": rng.choice(CRASH_KINDS + (None, None)),
     }
     return sc
 
@@ -202,6 +207,8 @@ def _validate(sc):
         raise InvalidScenario("plan values")
     if not isinstance(plan.get("rotate", 1), int) or plan.get("rotate", 1) < 0:
         raise InvalidScenario("rotate")
+    if plan.get("crash") not in CRASH_KINDS + (None, False, 0, ""):
+        raise InvalidScenario("crash")
 
 
 # ---------------------------------------------------------------------------
@@ -360,7 +367,7 @@ def first_difference(ref: dict, other: dict) -> tuple[str, str]:
 
 def _job(d):
     return {"model": d["model"], "params": d["params"], "seed": d["seed"], "seed_mode": d.get("seed_mode", "derived"),
-            "reuse_specs": bool(d.get("reuse_specs", False))}
+            "reuse_specs": bool(d.get("reuse_specs", False)), **({"pool_seed": d["pool_seed"]} if "pool_seed" in d else {})}
 
 
 def _subject(sc):
@@ -376,11 +383,19 @@ def _program(sc) -> list:
     plan = sc["plan"]
     subj, others = _subject(sc), _others(sc)
     jobs0, marks = [subj], [("ref", 0)]
+    if ZOO[subj["model"]]["family"] == "parallel":
+        # same interpreter, same everything, the worker threads' completion order drawn from another seed
+        for ps in (3, 5):
+            jobs0.append({**subj, "pool_seed": ps})
+            marks.append(("completion-order", len(jobs0) - 1))
     if plan.get("repeat"):
         jobs0.append(subj)
         marks.append(("repeat", len(jobs0) - 1))
-    if plan.get("after_others") and others:
-        jobs0.extend(others)
+    crash = _crash_job(plan)
+    if (plan.get("after_others") and others) or crash is not None:
+        if crash is not None:
+            jobs0.append(crash)
+        jobs0.extend(others if plan.get("after_others") else [])
         jobs0.append(subj)
         marks.append(("after-others", len(jobs0) - 1))
     for m in plan.get("wall", []):
@@ -478,6 +493,7 @@ def _run_single(sc):
         if kind == "after-others":
             after = r
     counters["fault.others_run"] = len(sc.get("others", [])) if after is not None else 0
+    counters["fault.earlier_simulation_died"] = int(_crash_job(sc["plan"]) is not None and after is not None)
     subj = _subject(sc)
     counters["probe.spec_bundle_reused"] = int(subj["reuse_specs"])
     counters["probe.boundary_seed_everywhere"] = int(subj["seed_mode"] == "same" and subj["seed"] in BOUNDARY_SEEDS)
@@ -524,6 +540,18 @@ def _is_known(sig: str) -> bool:
     return any(k.get("property") == PROPERTY and fnmatch.fnmatchcase(sig, k["signature"]) for k in _KNOWN)
 
 
+CRASH_KINDS = ("handler", "generator", "base")
+
+
+def _crash_job(plan):
+    """The 'earlier simulation that died' of a plan: a dying_run job (handler raise / raise inside a generator after a yield /
+    BaseException), or None."""
+    how = plan.get("crash")
+    if how not in CRASH_KINDS:
+        return None
+    return {"model": "dying_run", "params": {"how": how, "after": 5, "rate": 100.0}, "seed": 7, "seed_mode": "derived", "reuse_specs": False}
+
+
 def _cohort_program(sc):
     """Members m0..mK-1 are all judged.  Interpreter A (hash seed 0): every member once (m0 is the first thing a fresh
     interpreter does), every member a second time (each now runs after all the others, and under its fake wall clock),
@@ -536,9 +564,12 @@ def _cohort_program(sc):
     wall = plan.get("wall", [])
     jobs0 = list(members)
     marks = [(("ref", j), j) for j in range(k)]
+    crash = _crash_job(plan)
+    if crash is not None:
+        jobs0.append(crash)            # an earlier experiment in this interpreter died with an exception the caller caught
     for j, m in enumerate(members):
         w = wall[j] if j < len(wall) else None
-        jobs0.append({**m, "wall": w} if w else m)
+        jobs0.append({**m, "pool_seed": 1, **({"wall": w} if w else {})})   # pool_seed: other completion order of worker threads
         marks.append(((("after-others" if k > 1 else "repeat") + (f"+wall-{w}" if w else ""), j), len(jobs0) - 1))
     if plan.get("obs_numpy"):
         for j, m in enumerate(members):
@@ -550,9 +581,11 @@ def _cohort_program(sc):
     for h in plan.get("hs", []):
         # each member right after its sibling (same model and structure, other seeds) ran in that interpreter
         jobsb, marksb = [], []
+        if crash is not None and plan.get("crash_first_in_b"):
+            jobsb.append(crash)
         for j in order:
             jobsb.append(_sibling(members[j]))
-            jobsb.append(members[j])
+            jobsb.append({**members[j], "pool_seed": 2})
             marksb.append((("hashseed+after-sibling", j), len(jobsb) - 1))
         prog.append({"hs": h, "how": "fork", "jobs": jobsb, "marks": marksb})
     if plan.get("fresh"):
@@ -570,7 +603,8 @@ def _run_cohort(sc):
     for (kind, j), hs, r, _ in flat:
         if kind == "ref":
             refs[j] = r
-    counters = {"fault.others_run": (k - 1) * k if k > 1 else 0}
+    counters = {"fault.others_run": (k - 1) * k if k > 1 else 0,
+                "fault.earlier_simulation_died": int(_crash_job(sc["plan"]) is not None)}
     bad = []
     n_cmp = 0
     for (kind, j), hs, r, step in flat:
@@ -587,7 +621,7 @@ def _run_cohort(sc):
         if kind.startswith("after-others"):
             counters["probe.event_counter_dirty"] = counters.get("probe.event_counter_dirty", 0) | int(r["obs"]["event_counter_before"] > 0)
         if r["digest"] != refs[j]["digest"]:
-            bad.append((j, kind, hs))
+            bad.append((j, kind, hs, step))
     counters.setdefault("probe.event_counter_dirty", 0)
     states, deliveries, sim_s = [], 0, 0.0
     counters["probe.spec_bundle_reused"] = sum(1 for m in members if m.get("reuse_specs"))
@@ -615,12 +649,13 @@ def _run_cohort(sc):
         # one member cannot hide a new one in another member of the same cohort), else the first one.
         counters["probe.difference_confirmed_in_subprocess"] = 1
         verdicts, seen = [], set()
-        for j, kind, hs in bad:
+        for j, kind, hs, step in bad:
             if j in seen:
                 continue
             seen.add(j)
             single = dict(members[j])
-            single["others"] = [m for i, m in enumerate(members) if i != j]
+            cj = _crash_job(sc["plan"])
+            single["others"] = ([cj] if cj is not None else []) + [m for i, m in enumerate(members) if i != j]
             wall = sc["plan"].get("wall", [])
             alt = sorted(set(sc["plan"].get("hs", [])) | ({hs} if hs in HASHSEEDS[1:] else set()))
             single["plan"] = {"repeat": True, "sibling": True, "after_others": bool(single["others"]),
@@ -629,9 +664,20 @@ def _run_cohort(sc):
             fb = (KIND_SIG.get(first, first), kind, hs)
             verdict = _confirm(single, _program(single), None, fb)
             if verdict[0].split("/")[-2] == "unstable":
-                single["plan"] = {"repeat": True, "sibling": True, "after_others": bool(single["others"]), "wall": list(WALL_MODES),
-                                  "hs": list(HASHSEEDS[1:])}
-                verdict = _confirm(single, _program(single), None, fb)
+                # the single-subject schedule does not show it: the difference needs the exact sequence of this cohort
+                # (e.g. index ranges left behind by the members that ran in between).  Re-execute the cohort's own two steps
+                # in literal subprocesses with full logs and report against that.
+                again = _execute(prog, full=True, spawn_all=True, only={0, step})
+                ref_j = next(r for (kd, jj), _, r, _ in again if kd == "ref" and jj == j)
+                run_j = next((r for (kd, jj), _, r, st in again if kd == kind and jj == j and st == step), None)
+                if run_j is not None and run_j["digest"] != ref_j["digest"]:
+                    thing, why = first_difference(ref_j, run_j)
+                    where = "second-pass" if step == 0 else "other-interpreter"
+                    mv = f"{members[j]['model']}:{VARIANT[members[j]['model']](members[j]['params'])}"
+                    verdict = (f"C03/{mv}/{thing}/cohort-{where}",
+                               f"model {mv} seed {members[j]['seed']}: its run '{kind}' inside this cohort differs from its reference run "
+                               f"(reproduced in literal subprocesses; not reproduced by the single-subject schedule, the cohort's exact "
+                               f"sequence of earlier simulations is needed): {why}")
             verdicts.append((j, verdict))
             if not _is_known(verdict[0]):
                 break
@@ -642,7 +688,7 @@ def _run_cohort(sc):
     digest = hashlib.blake2b("|".join(r["digest"] for r in refs).encode(), digest_size=12).hexdigest()
     return result(sig=sig, msg=msg or "", digest=digest, nontrivial=deliveries >= 300 and n_cmp >= 2 * k,
                   counters=counters, sim_s=sim_s, deliveries=deliveries, klass=f"cohort-of-{k}", state=states,
-                  extra={"members": [m["model"] for m in members], "bad": [list(b) for b in bad]})
+                  extra={"members": [m["model"] for m in members], "bad": [list(b[:3]) for b in bad]})
 
 
 def run(sc):
